@@ -53,6 +53,10 @@ def _therm(db):
         import kawin.tests.datasets as ds
         if db == 'FeCrNi':
             THERM[db] = GeneralThermodynamics(ds.FECRNI_DB, ['FE', 'CR', 'NI'], ['FCC_A1', 'BCC_A2'])
+        elif db == 'FeNiCr':
+            # the same system with the solutes listed in the other order: a cyclic permutation of the alphabetical order, for
+            # which the sorting permutation of the elements differs from its inverse (seeded change s17b)
+            THERM[db] = GeneralThermodynamics(ds.FECRNI_DB, ['FE', 'NI', 'CR'], ['FCC_A1', 'BCC_A2'])
         elif db == 'NiCrAl':
             THERM[db] = GeneralThermodynamics(ds.NICRAL_TDB, ['NI', 'CR', 'AL'], ['FCC_A1', 'BCC_A2'])
         else:
@@ -422,6 +426,13 @@ POINTS = {
         # miscibility gap: BCC_A2 is stable with two composition sets (its name appears twice in the stable set)
         {'label': 'bccgap+fcc-700', 'x': [0.5, 0.05], 'T': 700.0},
         {'label': 'bccgap-700', 'x': [0.5, 0.001], 'T': 700.0},
+    ],
+    # Fe-Cr-Ni again with the solutes listed as [NI, CR] (x = [x_NI, x_CR]): same physical points
+    'FeNiCr': [
+        {'label': 'fcc', 'x': [0.3, 0.1], 'T': 1373.15},
+        {'label': 'bcc', 'x': [0.05, 0.5], 'T': 1373.15},
+        {'label': 'bcc+fcc', 'x': [0.065, 0.257], 'T': 1373.15},
+        {'label': 'fcc+bcc', 'x': [0.276, 0.423], 'T': 1373.15},
     ],
     'NiCrAl': [
         {'label': 'fcc', 'x': [0.05, 0.05], 'T': 1073.0},
